@@ -83,3 +83,19 @@ func VxUseBitArraySpecs() {
 	vx.Stub(vxPkgPath+".findFirstSetBit", vxSpecFindFirstSetBit)
 	vx.Merge("vxSpec")
 }
+
+func vxConcreteFindFirstSetBit(b *BitArray) uint8 {
+	if b.len == 0 {
+		return 0
+	}
+	return uint8(vx.Concrete(uint64(vxVal(b).BitLen())))
+}
+
+// VxCaseSplitFirstSetBit redirects findFirstSetBit to its specification (checked at full width by
+// VxC01BitArrayFindFirstSetBit) with the result case-split: the engine forks over every feasible
+// divergence position, so that all path lengths and shift amounts in the code above are constants
+// and every other bit-array method runs from its real source with concrete control flow.
+func VxCaseSplitFirstSetBit() {
+	vx.Stub(vxPkgPath+".findFirstSetBit", vxConcreteFindFirstSetBit)
+	vx.NoMerge(true)
+}
